@@ -448,7 +448,7 @@ def report(ctx, fails, byid, excnames, table):
             if cls not in ("S", "O"):
                 continue
             sig = "%s|%s" % (clause, feature)
-            if clause == "exception-class" and step >= 1:
+            if clause == "exception-class" and feature != "probe" and step >= 1:
                 sig = "%s|%s" % (clause, excnames[tid][step - 1])
             idxs = [o["i"] for o in t["ops"]]
             ctx.violation(
@@ -475,7 +475,7 @@ def run(ctx):
     # probes after every call, except in the largest groups of the thorough tier (after the last call)
     final_only = set() if q else {"core-L4"}
     todo = [(h["g"], h["c"], h["ops"], h["nt"], h["g"] not in final_only) for h in hist]
-    nrand = 600 if q else 12000
+    nrand = 600 if q else 6000
     for i in range(nrand):
         cn = CONTAINERS[i % 3]
         todo.append(("random", cn, random_history(ctx.rng, W, cn), 2, True))
@@ -542,8 +542,8 @@ def run(ctx):
     else:
         cfgs = [
             dict(level=2, nt=1, maxops=4, runs=[runs[0], runs[2]]),
-            dict(level=1, nt=1, maxops=5, runs=runs[1:], cover="repaired"),
-            dict(level=1, nt=2, maxops=4, runs=runs[2:]),
+            dict(level=1, nt=1, maxops=4, runs=[runs[1]], cover="as-written-order"),
+            dict(level=1, nt=2, maxops=3, runs=[runs[2]]),
         ]
     t1res = t1(ctx, cfgs)
     ctx.notes["t1"] = [{k: r[k] for k in ("label", "violated", "why")} for r in t1res]
